@@ -13,6 +13,10 @@ CLAIMED.update({
  'C13': dict(text='GridDims index laws for symbolic dimensions/indices, EclipseGrid active<->global maps for every ACTNUM vector of a 2x2x2 grid via the public API, geometry queries (volume, centre, depth, dims, thickness) of regular grids for all positive real spacings, and calculateCellVol proven equal (polynomial identity over 24 real coordinates) to an exact Simpson integration of the trilinear Jacobian.',
              note='doubles as reals; sqrt uninterpreted with its defining axioms; OpenMP thread independence and EGRID file round trip not modelled; grid sizes bounded as listed', design='4/C13'),
 })
+CLAIMED.update({
+ 'C02': dict(text='For each of the four deck unit systems the real UnitSystem (constructed through its public constructor) is queried with a SYMBOLIC measure index: z3 proves that every row factor/offset equals an independent table of physical unit definitions (1e-12), that from_si(to_si(x)) = x to 1e-14 over exact rationals, that vector/scalar/Dimension views agree, that named dimensions equal their definitions and that composite strings multiply/divide (symbolic factors); DeckItem lazy raw<->SI conversion is decided for symbolic values, default flags and dimension factors.',
+             note='doubles as exact rationals; std::map executed from headers with the rb-tree rebalance modelled as plain BST insert; keyword-JSON dimension strings and whole-deck re-expression outside', design='4/C02'),
+})
 NA = {
 }
 ALL = ['C%02d' % i for i in range(1, 21)]
